@@ -7,6 +7,7 @@ import SpoxModel.Lemmas.BuildAlgScope
 import SpoxModel.Lemmas.BuildAlgOrder
 import SpoxModel.Lemmas.BuildAlgPlaced
 import SpoxModel.Lemmas.BuildAlgLexical
+import SpoxModel.Lemmas.BuildAlgArgsReq
 import SpoxModel.Lemmas.BridgeWalk
 import SpoxModel.Lemmas.BridgeFacts
 import SpoxModel.Props.C01
@@ -651,6 +652,228 @@ theorem build_correct_of_mainClean {Val : Type} [Inhabited Val] (S : Prog.Sem Va
   build_correct S p hwf b tr h
     (leakFree_of_readers p hwf b tr h (readersEnclosed_of_mainClean p hwf b tr h M)) bind vals
 
+/-! ### `arguments_of` is the requested argument list; `MainClean` from a purely lexical condition (round 8) -/
+
+theorem build_argsReq (p : Prog) (b : Built) (tr : List Ev) (h : build p = .ok (b, tr)) :
+    ∃ st : DState, ArgsReq p st ∧ b.argsOf = st.argsOf ∧ b.graphTopo = st.topo.reverse := by
+  unfold build at h
+  split at h
+  · cases h
+  · rename_i st hd
+    simp only at h
+    split at h
+    · cases h
+    · split at h
+      · cases h
+      · cases h
+        refine ⟨st, ?_, rfl, rfl⟩
+        exact discover_argsReq p _ 0 DState.empty st
+          ⟨by intro e he; simp [DState.empty] at he, by intro g hg; simp [DState.empty] at hg⟩ hd
+
+/-- **arguments_of_requested**: in a successful build `arguments_of[s]` of every discovered graph with a
+    requested argument list is that list; and only discovered graphs have an entry. -/
+theorem arguments_of_requested (p : Prog) (b : Built) (tr : List Ev) (h : build p = .ok (b, tr)) :
+    (∀ s pg l, s ∈ b.graphTopo → p.graphs[s]? = some pg → pg.args = some l →
+      lookupL b.argsOf s = l) ∧
+    (∀ s a, a ∈ lookupL b.argsOf s → s ∈ b.graphTopo ∧ ∃ pg, p.graphs[s]? = some pg) := by
+  obtain ⟨st, hA, hao, hgt⟩ := build_argsReq p b tr h
+  constructor
+  · intro s pg l hs hpg hl
+    rw [hao]
+    exact lookupL_argsOf_of_argsReq p st hA s (by rw [hgt] at hs; simpa using hs) pg l hpg hl
+  · intro s a ha
+    rw [hao] at ha
+    obtain ⟨e, he, hes, _⟩ := lookupL_mem ha
+    obtain ⟨h1, pg, hpg, _⟩ := hA.1 e he
+    subst hes
+    exact ⟨by rw [hgt]; simpa using h1, pg, hpg⟩
+
+/-- The front-end discipline as a property of the PROGRAM alone (nothing of the build in it): bodies have
+    requested argument lists; every argument the outputs depend on is in the requested list of a graph
+    the outputs depend on; the main graph reads no value that depends freely on a body's argument. -/
+structure Lexical (p : Prog) : Prop where
+  explicit : ∀ s pg, s ≠ 0 → p.graphs[s]? = some pg → pg.args ≠ none
+  owned : ∀ a, p.isArg a = true → Reach p.adjFull (.src 0) (.node a) →
+    ∃ s pg l, p.graphs[s]? = some pg ∧ pg.args = some l ∧ a ∈ l ∧ Reach p.adjFull (.src 0) (.src s)
+  clean : ∀ s pg l a, s ≠ 0 → p.graphs[s]? = some pg → pg.args = some l → a ∈ l → ∀ v,
+    Reach (Bridge.adjCut p s) v (.node a) → ¬ Reach p.adjIn (.src 0) v
+
+/-- **mainClean_of_lexical**: for a successful build, `MainClean` (stated with `arguments_of` and
+    `graph_topo`) follows from the lexical condition on the program. -/
+theorem mainClean_of_lexical (p : Prog) (hwf : WF p) (b : Built) (tr : List Ev)
+    (h : build p = .ok (b, tr)) (X : Lexical p) : MainClean p b := by
+  obtain ⟨st, hdi, _, htopo, hown, hso, TF⟩ := discover_final p hwf b tr h
+  obtain ⟨_, _, _, _, hbtopo, _⟩ := build_inv p hwf b tr h
+  have hinv := scope_fold p hwf st.owner st.topo.reverse TF (lcaFuel st.topo.reverse)
+    (by simp only [lcaFuel]; omega) st.topo.reverse [] [] (by simp) (sinv_empty p st.owner)
+  rw [← hso, ← hown, ← htopo] at hinv
+  rw [← hown, ← htopo] at TF
+  obtain ⟨hreq, hent⟩ := arguments_of_requested p b tr h
+  constructor
+  · rintro a harg ⟨G, hG, hr⟩
+    obtain ⟨pre, suf, hsplit⟩ := List.append_of_mem hG
+    have r1 := Bridge.discovered_reach p hwf b st hdi htopo hown TF hinv hbtopo pre.length pre G suf rfl hsplit
+    obtain ⟨s, pg, l, hpg, hl, hal, hrs⟩ := X.owned a harg (Reach.trans r1 (Bridge.reach_in_full hr))
+    have hs : s ∈ b.graphTopo := by
+      cases hrs with
+      | refl =>
+        obtain ⟨rest, hr0⟩ := TF.head
+        rw [hr0]; simp
+      | @step u _ hru hmem =>
+        cases u with
+        | node w =>
+          simp only [Prog.adjFull, List.mem_append, List.mem_map] at hmem
+          rcases hmem with ⟨i, _, hi⟩ | ⟨s', hs', hi⟩
+          · cases hi
+          · cases hi
+            exact (Bridge.sub_discovered p hwf b st hdi htopo hown TF hinv hbtopo w s
+              ((Bridge.mem_topo_iff p hwf b st hdi htopo hown TF hinv hbtopo _).mpr hru) hs').1
+        | src g' =>
+          simp only [Prog.adjFull, List.mem_map] at hmem
+          obtain ⟨i, _, hi⟩ := hmem
+          cases hi
+    exact ⟨s, by rw [hreq s pg l hs hpg hl]; exact hal⟩
+  · intro s a hs0 ha v hdep hmain
+    obtain ⟨hs, pg, hpg⟩ := hent s a ha
+    cases hl : pg.args with
+    | none => exact X.explicit s pg hs0 hpg hl
+    | some l =>
+      rw [hreq s pg l hs hpg hl] at ha
+      exact X.clean s pg l a hs0 hpg hl ha v hdep hmain
+
+/-- **build_valid_of_lexical**, **build_correct_of_lexical**: the bridge to C01 with only the lexical
+    hypothesis on the program: `WF p`, `Lexical p`, `build p = ok` ⇒ the emission is accepted by `validG`
+    and evaluates to the program's denotation. -/
+theorem build_valid_of_lexical (p : BuildAlg.Prog) (hwf : WF p) (X : Lexical p) (b : Built)
+    (tr : List Ev) (h : build p = .ok (b, tr)) :
+    Prog.validG (Bridge.toProg p b.argsOf).nodes (Bridge.toEGraph p b)
+      (Bridge.toProg p b.argsOf).main [] = true :=
+  build_valid_of_mainClean p hwf b tr h (mainClean_of_lexical p hwf b tr h X)
+
+theorem build_correct_of_lexical {Val : Type} [Inhabited Val] (S : Prog.Sem Val)
+    (p : BuildAlg.Prog) (hwf : WF p) (X : Lexical p) (b : Built) (tr : List Ev)
+    (h : build p = .ok (b, tr)) (bind : Nat → Val) (vals : List Val) :
+    Prog.evalG S (Bridge.toProg p b.argsOf).nodes (Bridge.toEGraph p b) (fun _ => none) vals =
+      some (Prog.denoteG S (Bridge.toProg p b.argsOf).nodes bind
+        (Bridge.toProg p b.argsOf).main vals) :=
+  build_correct_of_mainClean S p hwf b tr h (mainClean_of_lexical p hwf b tr h X) bind vals
+
+theorem graph_lt_of_get (p : Prog) (s : Nat) (pg : PGraph) (h : p.graphs[s]? = some pg) :
+    s ∈ List.range p.graphs.length := by
+  rw [List.mem_range]
+  exact (List.getElem?_eq_some_iff.mp h).1
+
+/-- the executable check on the program implies `Lexical` -/
+theorem lexical_of_check (p : Prog) (hwf : WF p) (h : Bridge.lexicalB p = true) : Lexical p := by
+  simp only [Bridge.lexicalB, Bool.and_eq_true, List.all_eq_true] at h
+  obtain ⟨⟨h1, h2⟩, h3⟩ := h
+  have hfull : ∀ x, x ∈ visit p.adjFull p.fuel (V.src 0) [] ↔ Reach p.adjFull (.src 0) x := fun x =>
+    mem_visit_iff (rankV p) (rank_adjFull p hwf) p.fuel _ x (rank_src_lt_fuel p hwf 0)
+  constructor
+  · intro s pg hs0 hpg hnone
+    have := h1 s (graph_lt_of_get p s pg hpg)
+    simp [hs0, hpg, hnone] at this
+  · intro a harg hr
+    have := h2 (.node a) ((hfull _).mpr hr)
+    simp only [harg, Bool.not_true, Bool.false_or, List.any_eq_true] at this
+    obtain ⟨s, _, hs⟩ := this
+    cases hpg : p.graphs[s]? with
+    | none => simp [hpg] at hs
+    | some pg =>
+      cases hl : pg.args with
+      | none => simp [hpg, hl] at hs
+      | some l =>
+        simp only [hpg, hl, Bool.and_eq_true, List.contains_iff_mem] at hs
+        exact ⟨s, pg, l, hpg, hl, hs.1, (hfull _).mp hs.2⟩
+  · intro s pg l a hs0 hpg hl ha v hdep hmain
+    have := h3 s (graph_lt_of_get p s pg hpg)
+    simp only [hpg, hl, Bool.or_eq_true, beq_iff_eq, List.all_eq_true] at this
+    rcases this with h0 | hall
+    · exact hs0 h0
+    · have hv : v ∈ p.postIn 0 :=
+        (mem_visit_iff (rankV p) (rank_adjIn p hwf) p.fuel _ _ (rank_src_lt_fuel p hwf 0)).mpr hmain
+      have hno := hall a ha v hv
+      have hrank : ∀ x, ∀ w ∈ Bridge.adjCut p s x, rankV p w < rankV p x := by
+        intro x w hw
+        exact rank_adjFull p hwf x w (List.mem_filter.mp hw).1
+      have hf : rankV p v < p.fuel :=
+        Nat.lt_of_le_of_lt (rank_le_of_reach p hwf hmain) (rank_src_lt_fuel p hwf 0)
+      have hin : V.node a ∈ visit (Bridge.adjCut p s) p.fuel v [] :=
+        (mem_visit_iff (rankV p) hrank p.fuel v _ hf).mpr hdep
+      have hc : (visit (Bridge.adjCut p s) p.fuel v []).contains (V.node a) = true :=
+        List.contains_iff_mem.mpr hin
+      rw [hc] at hno
+      cases hno
+
+/-- **build_valid_lexical_checked**: every hypothesis is an executable check on the PROGRAM
+    (`WFb`, `lexicalB`) or the success of the build itself. -/
+theorem build_valid_lexical_checked (p : BuildAlg.Prog) (hwf : p.WFb = true)
+    (hx : Bridge.lexicalB p = true) (b : Built) (tr : List Ev) (h : build p = .ok (b, tr)) :
+    Prog.validG (Bridge.toProg p b.argsOf).nodes (Bridge.toEGraph p b)
+      (Bridge.toProg p b.argsOf).main [] = true :=
+  build_valid_of_lexical p (wf_of_wfb p hwf) (lexical_of_check p (wf_of_wfb p hwf) hx) b tr h
+
+/-- **args_stay_local** (the property's sentence "values that depend on a subgraph's own arguments never
+    appear outside that subgraph", at full strength for main-clean — in particular lexical — programs):
+    in a successful build every emitted vertex that depends freely on an argument of body `s` sits in a
+    graph enclosed by `s` in the final scope tree (`s` itself or a body nested in it). -/
+theorem args_stay_local (p : Prog) (hwf : WF p) (b : Built) (tr : List Ev)
+    (h : build p = .ok (b, tr)) (M : MainClean p b) (s a : Nat) (ha : a ∈ lookupL b.argsOf s)
+    (v : V) (g : Nat) (hp : (v, g) ∈ placed tr [])
+    (hdep : Reach (Bridge.adjCut p s) v (.node a)) :
+    Anc (parent b.owner b.scopeOf) s g := by
+  obtain ⟨st, hdi, _, htopo, hown, hso, TF⟩ := discover_final p hwf b tr h
+  obtain ⟨_, _, _, _, hbtopo, _⟩ := build_inv p hwf b tr h
+  have hinv := scope_fold p hwf st.owner st.topo.reverse TF (lcaFuel st.topo.reverse)
+    (by simp only [lcaFuel]; omega) st.topo.reverse [] [] (by simp) (sinv_empty p st.owner)
+  rw [← hso, ← hown, ← htopo] at hinv
+  rw [← hown, ← htopo] at TF
+  have hs := placed_in_scope p b tr h v g hp
+  apply (hinv.low v g hs).2 s
+  rintro G ⟨hG, hGv⟩
+  obtain ⟨pre, suf, hsplit⟩ := List.append_of_mem hG
+  exact Bridge.freeDep_enclosed p hwf b st hdi htopo hown TF hinv hbtopo s a
+    (fun hs0 => M.clean s a hs0 ha) pre.length pre G suf rfl hsplit v
+    ((mem_visit_iff (rankV p) (rank_adjIn p hwf) p.fuel (.src G) v (rank_src_lt_fuel p hwf G)).mp hGv)
+    hdep
+
+/-- … for lexical programs, with the requested argument list in the place of `arguments_of` -/
+theorem args_stay_local_of_lexical (p : Prog) (hwf : WF p) (X : Lexical p) (b : Built)
+    (tr : List Ev) (h : build p = .ok (b, tr)) (s : Nat) (pg : PGraph) (l : List Nat)
+    (hs : s ∈ b.graphTopo) (hpg : p.graphs[s]? = some pg) (hl : pg.args = some l) (a : Nat)
+    (ha : a ∈ l) (v : V) (g : Nat) (hp : (v, g) ∈ placed tr [])
+    (hdep : Reach (Bridge.adjCut p s) v (.node a)) :
+    Anc (parent b.owner b.scopeOf) s g :=
+  args_stay_local p hwf b tr h (mainClean_of_lexical p hwf b tr h X) s a
+    (by rw [(arguments_of_requested p b tr h).1 s pg l hs hpg hl]; exact ha) v g hp hdep
+
+/-- **property_of_lexical** — the statement of C04 for programs of the front end, in one theorem: if a
+    program in creation order satisfies the lexical condition and its build succeeds, then in the built
+    model (1) every operator application occurs exactly once if some requested output depends on it and
+    not at all otherwise; (2) every emitted vertex sits in exactly one graph, the lowest common ancestor
+    of all graphs reading it; (3) every emitted vertex depending freely on an argument of a body sits
+    inside that body; (4) the emission is accepted by the ONNX scoping rule of C01's `validG` (hence
+    evaluates to the program's denotation, `build_correct_of_lexical`). Programs that leak a body's
+    argument to an outer scope are rejected: `leak_rejected`. -/
+theorem property_of_lexical (p : Prog) (hwf : WF p) (X : Lexical p) (b : Built) (tr : List Ev)
+    (h : build p = .ok (b, tr)) :
+    (∀ n, p.isArg n = false →
+      (Reach p.adjFull (.src 0) (.node n) → (emitted tr).count (.node n) = 1) ∧
+      (¬ Reach p.adjFull (.src 0) (.node n) → (emitted tr).count (.node n) = 0)) ∧
+    (∀ v, v ∈ emitted tr → ∃ g, (v, g) ∈ placed tr [] ∧ (∀ g', (v, g') ∈ placed tr [] → g' = g) ∧
+      LowestP (parent b.owner b.scopeOf)
+        (fun G => G ∈ b.graphTopo ∧ Reach p.adjIn (.src G) v) g) ∧
+    (∀ s pg l a v g, s ∈ b.graphTopo → p.graphs[s]? = some pg → pg.args = some l → a ∈ l →
+      (v, g) ∈ placed tr [] → Reach (Bridge.adjCut p s) v (.node a) →
+      Anc (parent b.owner b.scopeOf) s g) ∧
+    Prog.validG (Bridge.toProg p b.argsOf).nodes (Bridge.toEGraph p b)
+      (Bridge.toProg p b.argsOf).main [] = true :=
+  ⟨fun n hn => emitted_once p hwf b tr h n hn,
+   fun v hv => emitted_in_least_enclosing p hwf b tr h v hv,
+   fun s pg l a v g hs hpg hl ha hp hdep =>
+     args_stay_local_of_lexical p hwf X b tr h s pg l hs hpg hl a ha v g hp hdep,
+   build_valid_of_lexical p hwf X b tr h⟩
+
 /-! ### the Builder does not look at what kind of operator a node is
 
 `BuildAlg.Prog` has no field for the operator type, domain, version, attributes or number of outputs
@@ -788,6 +1011,18 @@ def exSiblingLeak : Prog :=
 example : ∃ b tr, build exSiblingLeak = .ok (b, tr) ∧ structOk exSiblingLeak tr [] = false := by
   refine ⟨_, _, rfl, ?_⟩; decide
 
+/-- the hypotheses of `args_stay_local` are jointly satisfiable: `Neg(carried)` of `exLoop` depends freely
+    on the body's argument 4 and is placed in the body -/
+example : ∃ b tr, build exLoop = .ok (b, tr) ∧ Anc (parent b.owner b.scopeOf) 1 1 := by
+  refine ⟨_, _, rfl, ?_⟩
+  exact args_stay_local exLoop (wf_of_wfb _ (by decide)) _ _ rfl
+    (mainClean_of_check _ (wf_of_wfb _ (by decide)) _ (by decide)) 1 4 (by decide) (.node 5) 1
+    (by decide) (Reach.step (Reach.refl _) (by decide))
+
+/-- `Lexical` is satisfiable and discriminates (a check on the program alone) -/
+example : Bridge.lexicalB exLoop = true ∧ Bridge.lexicalB exNested = true ∧
+    Bridge.lexicalB exSiblingLeak = false ∧ Bridge.lexicalB exOuterLeak = false := by decide
+
 example : ∃ b tr, build exSiblingLeak = .ok (b, tr) ∧ Bridge.mainCleanB exSiblingLeak b = false := by
   refine ⟨_, _, rfl, ?_⟩; decide
 
@@ -806,6 +1041,11 @@ theorem generated_methods_covered :
 /-- no module-level state in `_build.py` (a module-level cache would be a new name) -/
 theorem generated_module_names_covered :
     Generated.BuildAlgFacts.moduleNames = BuildAlgCover.moduleNames := by decide
+
+/-- no module-level state in `_graph.py` (where `subgraph()` traces the body callbacks), `_internal_op.py`,
+    `_traverse.py` either: a memo table keyed by callback / node would be a new name -/
+theorem generated_other_module_names_covered :
+    Generated.BuildAlgFacts.otherModuleNames = BuildAlgCover.otherModuleNames := by decide
 
 /-- class-level attributes: the annotated Builder / ScopeTree / BuildResult fields, nothing assigned -/
 theorem generated_class_attrs_covered :
